@@ -341,6 +341,18 @@ class Sym:
             return tosym(b).sqrt()
         raise NotImplementedError("symbolic exponent")
 
+    def __mod__(self, m):
+        if isinstance(m, _np.ndarray):
+            return NotImplemented
+        m = tosym(m)
+        if m is NotImplemented or not m.is_const():
+            raise NotImplementedError("symbolic modulus")
+        mv = m.const_value()
+        if not self.is_real() or self.re.d is not T.ONE:
+            raise NotImplementedError("modulus of a complex / rational-function value")
+        k = T.floordiv(self.re.n, mv)
+        return Sym(Q(T.sub(self.re.n, T.scale(mv, k))))
+
     def __abs__(self):
         if self.is_real():
             if self.re.d is T.ONE:
